@@ -18,7 +18,7 @@ from .datatypes import Quantity, Coordinate, Ref, Bin, Uri, \
     MARKER, NA, REMOVE, XStr
 from .grid import Grid
 from .version import LATEST_VER, Version, VER_3_0
-from .zoneinfo import timezone
+from .zoneinfo import timezone, in_timezone
 
 URI_META = re.compile(r'\\([:/\?#\[\]@\\&=;"$`])')
 GRID_SEP = re.compile(r'\n\n+')
@@ -232,8 +232,7 @@ def parse_embedded_scalar(scalar, version=LATEST_VER):
             return isodate  # No timezone given
         else:
             try:
-                tz = timezone(tzname)
-                return isodate.astimezone(tz)
+                return in_timezone(isodate, tzname)
             except:  # pragma: no cover
                 # Unlikely code path.
                 return isodate
